@@ -1016,6 +1016,20 @@ func genPlugin(repo string) *leanFile {
 			return true
 		})
 		l.Strs("rdnssRanking", preds, "betterRDNSS: predicate order")
+		codes := []string{}
+		for _, p := range preds {
+			switch p {
+			case "IsPrivate":
+				codes = append(codes, "0")
+			case "IsGlobalUnicast":
+				codes = append(codes, "1")
+			case "IsLinkLocalUnicast":
+				codes = append(codes, "2")
+			default:
+				codes = append(codes, "99")
+			}
+		}
+		l.lines = append(l.lines, "/-- betterRDNSS: predicate order as codes (0 IsPrivate, 1 IsGlobalUnicast, 2 IsLinkLocalUnicast, 99 other) -/\ndef rdnssRankingCodes : List Nat := ["+strings.Join(codes, ", ")+"]")
 	}
 	return l
 }
